@@ -10,6 +10,19 @@ theorem KF1_witness_types : ¬ C17_types_eq_xlsx_full := by
   unfold C17_types_eq_xlsx_full
   decide +kernel
 
+theorem dedupe_exact : Xlsx.types.flatMap TypeRow.droppedRows = r7Dropped := by
+  decide +kernel
+
+theorem dedupe_eq_listed : Xlsx.types.map TypeRow.dedupe = Xlsx.types.map (TypeRow.dropListed r7Dropped) := by
+  decide +kernel
+
+theorem dedupe_aliases_survive : ∀ t ∈ Xlsx.types, t.aliasesSurvive = true := by
+  decide +kernel
+
+theorem types_row_count :
+    (Xlsx.types.map (·.consts.length)).sum = (Prof.types.map (·.consts.length)).sum + r7Dropped.length := by
+  decide +kernel
+
 theorem profile_types :
     Prof.profileTypeStrs.ok = true ∧
     Prof.profileTypeStrs.rows.map (·.value) = List.range Prof.profileTypeStrs.rows.length ∧
